@@ -158,7 +158,7 @@ func init() {
 
 	externals["internal/stringslite.Clone"] = func(fr *frame, a []value) value { return a[0] }
 	externals["strings.Clone"] = func(fr *frame, a []value) value { return a[0] }
-	externals["sort.SliceStable"] = extSortSlice
+	externals["sort.SliceStable"] = extSortSliceStable
 	parseInt := func(unsigned bool) externalFn {
 		return func(fr *frame, a []value) value {
 			s, ok1 := a[0].(string)
